@@ -166,6 +166,13 @@ def stepH (s : State) : HOp → State
 
 def runH (s : State) (hs : List HOp) : State := hs.foldl stepH s
 
+/-- what a history answers: every lookup, in order, answered in the store reached by then (this is what the
+    driver prints for the lookup steps) -/
+def answers (s : State) : List HOp → List (Except Err Found)
+  | [] => []
+  | .op o :: t => answers (step s o) t
+  | .lookup h p k :: t => lookupAt s h p k :: answers s t
+
 /-- the edits of a history, lookups forgotten -/
 def edits : List HOp → List Op
   | [] => []
